@@ -44,7 +44,8 @@ let configs = [
   { dbblack = []; dbwhite = []; keyblack = []; keywhite = []; lua = false; tdb = 2; resume = false; scount = 1; ssize = 1000000 };
   { dbblack = [ "7" ]; dbwhite = []; keyblack = []; keywhite = []; lua = false; tdb = 2; resume = false; scount = 100; ssize = 1000000 };
   { dbblack = []; dbwhite = []; keyblack = []; keywhite = []; lua = false; tdb = -1; resume = true; scount = 100; ssize = 1000000 };
-  { dbblack = []; dbwhite = []; keyblack = [ "b" ]; keywhite = []; lua = false; tdb = 0; resume = false; scount = 5; ssize = 1000000 } ]
+  { dbblack = []; dbwhite = []; keyblack = [ "b" ]; keywhite = []; lua = false; tdb = 0; resume = false; scount = 5; ssize = 1000000 };
+  { dbblack = [ "7" ]; dbwhite = []; keyblack = []; keywhite = []; lua = true; tdb = 2; resume = true; scount = 3; ssize = 1000000 } ]
 
 let gen_cmd st =
   let key () = rnd_pick st [ "a1"; "a2"; "b1"; "b2"; "k"; "redis-shake-checkpoint-x" ] in
